@@ -6,6 +6,7 @@
 package main
 
 import (
+	"os"
 	"time"
 
 	"verif/lib/concfs"
@@ -32,6 +33,37 @@ func lockOrderPrograms(fs string) []concfs.Prog {
 	return ps
 }
 
+// compositePrograms run the composite helpers as the single calls they are for
+// a caller (C06 decomposes them to judge atomicity; here they only have to
+// return): ReadFile sizes its buffer from a Stat and reads until EOF, ReadDir,
+// Glob and WalkDir list while the directory changes under them.
+func compositePrograms(fs string) []concfs.Prog {
+	big := func(flag int) []fsx.Call {
+		return []fsx.Call{{Op: "H.Open", A: "/d/x", Flag: flag}, {Op: "H.WriteBig", N: 600}, {Op: "H.Close"}}
+	}
+
+	composites := []fsx.Call{
+		{Op: "ReadFile", A: "/d/x"}, {Op: "ReadDir", A: "/d"}, {Op: "WriteFile", A: "/d/x", Data: "AB", Perm: 0o644},
+		{Op: "Glob", A: "/d/*"}, {Op: "WalkDir", A: "/d"},
+	}
+
+	writers := [][]fsx.Call{
+		big(os.O_WRONLY | os.O_TRUNC), big(os.O_WRONLY | os.O_APPEND),
+		{{Op: "Remove", A: "/d/x"}}, {{Op: "Rename", A: "/d/x", B: "/d/y"}},
+		{{Op: "Mkdir", A: "/d/y", Perm: 0o755}}, {{Op: "RemoveAll", A: "/d/e"}},
+	}
+
+	var out []concfs.Prog
+
+	for _, c := range composites {
+		for _, w := range writers {
+			out = append(out, concfs.Prog{FS: fs, Threads: [][]fsx.Call{{c}, w}})
+		}
+	}
+
+	return out
+}
+
 func buildPlan(tier string) concfs.Plan {
 	pl := concfs.Plan{ID: "C07", Oracle: concfs.OrReturns, Bound: 2, PerProg: 20 * time.Second}
 
@@ -39,6 +71,7 @@ func buildPlan(tier string) concfs.Plan {
 		pl.Programs = append(pl.Programs, concfs.Pairs(fs, false, concfs.Templates(fs, false, true))...)
 		pl.Programs = append(pl.Programs, lockOrderPrograms(fs)...)
 		pl.Programs = append(pl.Programs, concfs.HandlePrograms(fs)...)
+		pl.Programs = append(pl.Programs, compositePrograms(fs)...)
 	}
 
 	if tier == "thorough" {
